@@ -426,7 +426,36 @@ func c14Run(a []string) (out string, verdict string) {
 	}
 	if err != nil {
 		// nothing returned: the property's demands are on what IS returned; whether an error is right here is
-		// decided by the comparison with the specified outcome
+		// decided by the comparison with the specified outcome.
+		// A FAILED retrieval is followed by a second one on the same session (the device's scripted events are over by now):
+		// whatever that one returns must again be the Full Sensor Records of one state of the device — nothing of the failed
+		// retrieval may survive into it (verdict only: the outcome text stays "err")
+		if ctx.Err() == nil {
+			var repo2 bmc.SDRRepository
+			var err2 error
+			func() {
+				defer func() {
+					if r := recover(); r != nil {
+						err2 = fmt.Errorf("panic: %v", r)
+					}
+				}()
+				repo2, err2 = bmc.RetrieveSDRRepository(ctx, sess)
+			}()
+			if err2 != nil && strings.HasPrefix(err2.Error(), "panic") {
+				return "err", "second retrieval on the session after a failed one: " + err2.Error()
+			}
+			if err2 == nil && !dev.changedSinceReserve {
+				if want, ok := c14Reference(dev.recs); ok {
+					got2 := map[uint16]string{}
+					for id, fsr := range repo2 {
+						got2[uint16(id)] = dumpLayer(fsr, nil)
+					}
+					if c14Render(got2) != c14Render(want) {
+						return "err", fmt.Sprintf("after a failed retrieval the next one on the same session returns %s, the device holds %s", c14Render(got2), c14Render(want))
+					}
+				}
+			}
+		}
 		return "err", ""
 	}
 	got := map[uint16]string{}
